@@ -244,23 +244,36 @@ class Check:
             cmd += list(extra)
         cmd.append(module + ".tla")
         e = dict(os.environ)
+        # (a bounded heap: the models are small, and several checks may run
+        # side by side on one machine)
+        jopts = ["-Xmx6g"]
         if dfs:
-            e["JAVA_TOOL_OPTIONS"] = (
-                "-Dtlc2.tool.queue.IStateQueue=StateDeque")
+            jopts.append("-Dtlc2.tool.queue.IStateQueue=StateDeque")
+        e["JAVA_TOOL_OPTIONS"] = " ".join(
+            [e.get("JAVA_TOOL_OPTIONS", "")] + jopts).strip()
         if env:
             e.update({k: str(v) for k, v in env.items()})
         t0 = time.time()
-        try:
-            p = subprocess.run(cmd, cwd=cwd, env=e, stdout=subprocess.PIPE,
-                               stderr=subprocess.STDOUT, timeout=timeout)
-            out = p.stdout.decode("utf-8", "replace")
-            rc = p.returncode
-        except subprocess.TimeoutExpired as ex:
-            out = (ex.stdout or b"").decode("utf-8", "replace")
-            rc = -9
-        finally:
-            shutil.rmtree(meta, ignore_errors=True)
-        res = parse_tlc(out)
+        # a run that ends abnormally without a verdict (killed on a loaded
+        # machine) is repeated once
+        for attempt in (0, 1):
+            os.makedirs(meta, exist_ok=True)
+            try:
+                p = subprocess.run(cmd, cwd=cwd, env=e,
+                                   stdout=subprocess.PIPE,
+                                   stderr=subprocess.STDOUT, timeout=timeout)
+                out = p.stdout.decode("utf-8", "replace")
+                rc = p.returncode
+            except subprocess.TimeoutExpired as ex:
+                out = (ex.stdout or b"").decode("utf-8", "replace")
+                rc = -9
+            finally:
+                shutil.rmtree(meta, ignore_errors=True)
+            res = parse_tlc(out)
+            if rc == 0 or res["violated"] or res["error"] or rc == -9 or \
+                    "Model checking completed" in out or \
+                    "Finished in" in out:
+                break
         res.update(rc=rc, wall=time.time() - t0, cmd=" ".join(cmd),
                    module=module, cfg=cfg, out=out)
         run = {k: res.get(k) for k in ("module", "cfg", "rc", "generated",
@@ -553,6 +566,30 @@ def run_check(main):
                          dict(kind="library-exception"))
             ck.assume("the run stopped at an exception raised inside the "
                       "library; clauses after that point were not evaluated")
+            sys.exit(ck.finish())
+        # An exception raised by the check's own code while it handles what
+        # the library returned (an object without its data, a result of
+        # another type): the check is deterministic for a seed and passes on
+        # the unchanged tree, so the library's result is what changed.
+        last = frames[-1] if frames else None
+        if CURRENT[0] is not None and last is not None and \
+                os.path.realpath(last.filename).startswith(
+                    os.path.join(verif_real, "checks") + os.sep) and \
+                isinstance(e, (AttributeError, TypeError, KeyError,
+                               IndexError, ValueError, ZeroDivisionError,
+                               ArithmeticError)):
+            ck = CURRENT[0]
+            ck.violation("library-result-unusable",
+                         "%s:%d:%s" % (os.path.basename(last.filename),
+                                       last.lineno, type(e).__name__),
+                         dict(exception=repr(e)[:300],
+                              harness_line="%s:%d" % (
+                                  os.path.basename(last.filename),
+                                  last.lineno)),
+                         dict(kind="library-result-unusable"))
+            ck.assume("the run stopped where the check could not use what "
+                      "the library returned; clauses after that point were "
+                      "not evaluated")
             sys.exit(ck.finish())
         print("MACHINERY-FAILURE: unexpected exception in the harness")
         sys.exit(2)
